@@ -37,12 +37,14 @@ def case(draw, tier):
     cap = draw(st.sampled_from([0, 1, 2, 5])) if policy != "conflating" else 0
     np_ = draw(st.integers(1, 4)) if policy != "conflating" else 1
     latch = policy == "queue" and draw(st.booleans())
+    # a slow consumer keeps a backlog in the source while the stop request arrives
+    sink_sleep = draw(st.sampled_from([0, 0, 0, 300, 1500]))
     producers = []
     for p in range(np_):
         steps = []
         k = 0
         for ph in (1, 2, 3, 4, 5):
-            n = draw(st.integers(0, 4 if ph != 5 else 2))
+            n = draw(st.integers(0, (6 if sink_sleep and ph == 4 else 4) if ph != 5 else 2))
             if ph == 2 and not latch:
                 n = 0
             for _ in range(n):
@@ -50,7 +52,8 @@ def case(draw, tier):
                 blocking = ph != 2 and draw(st.integers(0, 3)) == 0
                 steps.append({"ph": ph, "v": (p + 1) * 1000 + k, "blocking": blocking, "delay_us": draw(st.sampled_from([0, 0, 0, 5, 50, 300]))})
         producers.append(steps)
-    return {"policy": policy, "capacity": cap, "latch": latch, "producers": producers, "stop_after_us": draw(st.sampled_from([0, 0, 20, 200, 2000]))}
+    return {"policy": policy, "capacity": cap, "latch": latch, "producers": producers, "stop_after_us": draw(st.sampled_from([0, 0, 20, 200, 2000])),
+            "sink_sleep_us": sink_sleep}
 
 
 def strategy(tier):
@@ -64,6 +67,8 @@ def check(case, ctx) -> Result:
     sink = {"id": "sink", "op": "node", "ins": ["ps"], "collect": True, "clock": True}
     if case["latch"]:
         sink["latch_on"] = -1
+    if case.get("sink_sleep_us"):
+        sink["sleep_us"] = case["sink_sleep_us"]
     prog = {"mode": "rt", "max_wait_slice_us": 3600000000, "stmts": [{"id": "ps", "op": "push_src", "schema": schema, "policy": policy, "capacity": cap}, sink]}
     rt = {"n_push": 1, "producers": case["producers"], "stop_after_us": case["stop_after_us"], "count_drain": policy != "conflating",
           "value_drain": policy == "conflating"}
@@ -82,7 +87,7 @@ def check(case, ctx) -> Result:
     if not resp.get("watchdog_ok"):
         res.violations.append(Viol("run_did_not_stop", "run() had not returned 20 s after request_stop", feats))
         return res
-    sends, latch_info, drains = [], None, []
+    sends, latch_info, drains, stop_req = [], None, [], None
     for e in resp["log"]:
         if e[0] == "send":
             sends.append({"p": e[1], "v": e[3], "blocking": e[4], "ph": e[5], "sb": e[6], "ok": e[7], "sa": e[8], "pend": e[11], "exc": e[12]})
@@ -90,6 +95,8 @@ def check(case, ctx) -> Result:
             latch_info = {"ok": e[3], "latched": e[5], "delivered": e[6], "accepted": e[7], "sb": e[2], "sa": e[4]}
         elif e[0] == "drain":
             drains.append(e)
+        elif e[0] == "stop_req":
+            stop_req = {"sb": e[1], "sa": e[2]}
         elif e[0] == "ctl":
             raise HarnessError(f"controller: {e}")
     if any(s["exc"] for s in sends):
@@ -172,6 +179,11 @@ def check(case, ctx) -> Result:
         if s["ph"] <= 3 and s["blocking"] and s["ph"] != 2:
             out.append(("blocking_send_failed_before_stop", f"blocking send of {s['v']} in phase {s['ph']} returned false before any stop"))
             break
+    # a send that STARTED after request_stop() had returned can never be delivered: it must be refused
+    if stop_req is not None:
+        late = [s for s in sends if s["ok"] and s["sb"] > stop_req["sa"]]
+        if late:
+            out.append(("accepted_after_stop_request", f"send of {late[0]['v']} (blocking={late[0]['blocking']}) started at seq {late[0]['sb']}, after request_stop() had returned (seq {stop_req['sa']}), and was accepted; delivered {flat[-6:]}"))
     post = [s for s in sends if s["ph"] == 5 and s["ok"]]
     if post:
         out.append(("accepted_after_stop", f"send of {post[0]['v']} was accepted after run() had returned"))
@@ -200,5 +212,9 @@ def check(case, ctx) -> Result:
         res.labels.append("stop_race")
     if any(s["blocking"] for s in sends):
         res.labels.append("blocking_sends")
+    if case.get("sink_sleep_us"):
+        res.labels.append("slow_consumer")
+    if stop_req is not None and any(s["sb"] > stop_req["sa"] and s["ph"] == 4 for s in sends):
+        res.labels.append("send_started_after_stop_request_returned")
     res.summary = {"delivered": flat[:20], "n_sends": len(sends), "n_accepted": len(accepted), "drains": [d[2] for d in drains]}
     return res
